@@ -5,7 +5,7 @@
 import glob, json, os, re, shutil, sys
 from verif.core import Check, pmap, run_main, scratch_root, REPO, VERIF
 from verif import projgen as pg, refninja as rn
-from verif.projects import RICH, NOLANG
+from verif.projects import RICH, NOLANG, install_dirs_project
 
 DUMP = os.path.join(VERIF, 'tools', 'bin', 'argv_dump')
 
@@ -412,7 +412,10 @@ def check_install(job):
         for p, kind in tree.items():
             if p in covered or kind != 'file':
                 continue     # symlinks (library aliases, install_symlink) and empty directories are not among the kinds the property lists
-            v.append(('C15:install_plan:unlisted', '%s was installed (tags=%s) but no entry of intro-install_plan.json names it' % (p, tagsel)))
+            # the plan is a dict keyed by source path: a source installed to two places keeps one entry only
+            twice = any(os.path.basename(srcp) == os.path.basename(p) and d != p for _, srcp, d in expect)
+            v.append(('C15:install_plan:unlisted' + (':same-source-installed-twice' if twice else ''),
+                      '%s was installed (tags=%s) but no entry of intro-install_plan.json names it' % (p, tagsel)))
         if tagsel is None:
             # intro-installed.json: source -> destination (prefix applied)
             for srcp, d in installed.items():
@@ -519,6 +522,7 @@ def main():
     jobs.append(('tests',))
     jobs.append(('install', 'rich', RICH))
     jobs.append(('install', 'nolang', NOLANG))
+    jobs.append(('install', 'install-dirs', install_dirs_project()))
     tot = {}
     classes = set()
     for kind, name, v, st in pmap(dispatch, jobs, chunksize=1):
